@@ -41,7 +41,11 @@ func c03Build(r *rand.Rand, n int, bad []int, kind string, h hash.Hasher, hn str
 	for i := 0; i < n; i++ {
 		ks[i] = randScalar(r)
 		sk := skFromInt(ks[i])
-		b.pks = append(b.pks, sk.PublicKey())
+		if i%3 == 2 {
+			b.pks = append(b.pks, jacobianForm(sk.PublicKey(), r)) // same point, non-affine coordinates
+		} else {
+			b.pks = append(b.pks, sk.PublicKey())
+		}
 		pts[i] = ref.E1.Mul(H, ks[i])
 		b.sigs = append(b.sigs, ref.EncodeG1(pts[i]))
 		b.built = append(b.built, true)
